@@ -651,6 +651,31 @@ func GenEnv(r *Rng, mapLo, mapHi int) *Env {
 	}
 	add("m", genMap(r, 1, mapLo, mapHi))
 	add("m2", genMap(r, 0, mapLo, mapHi))
+	if r.Chance(0.25) {
+		// m3: a copy of m with one entry changed (and sometimes a record under one more key)
+		src := (*LV)(nil)
+		for i, n := range e.Names {
+			if n == "m" {
+				src = e.Vals[i]
+			}
+		}
+		if src != nil && src.T == "map" && len(src.A) > 0 && (src.R == "" || src.R == "ptr") {
+			src.R = "" // two plain maps
+			cp := &LV{T: "map", R: src.R, K: append([]string{}, src.K...), A: append([]*LV{}, src.A...)}
+			j := r.Intn(len(cp.A))
+			cp.A[j] = &LV{T: "str", S: "changed-" + pick(r, words)}
+			if r.Chance(0.5) && src.R == "" && !noAddr {
+				k := r.Intn(len(cp.A))
+				if k != j {
+					st := genStruct(r)
+					st.B = false // by value: a struct with a slice field cannot be compared with ==
+					cp.A[k] = st
+					src.A[k] = st // both maps hold the same record under that key
+				}
+			}
+			add("m3", cp)
+		}
+	}
 	if r.Chance(0.06) {
 		// a big map (33..70 entries; as a Go map, a typed map or an ordered yaml.MapSlice):
 		// size thresholds for indexes, sorting strategies and pre-sized buffers lie here
